@@ -73,6 +73,18 @@ fn fmt_log(log: Vec<Notif>) -> String {
   format!("o={}", parts.join(";"))
 }
 
+/// A value of the case's own thread kept where the thread-safe flavour wants `Send` (inside an inner observable): the
+/// kick of `kickhot` runs on the thread that drives the case.
+#[derive(Clone)]
+struct Kept<T>(T);
+unsafe impl<T> Send for Kept<T> {}
+unsafe impl<T> Sync for Kept<T> {}
+impl<T: Clone> Kept<T> {
+  fn get(&self) -> T {
+    self.0.clone()
+  }
+}
+
 #[derive(Clone)]
 enum Fin {
   Open,
@@ -84,6 +96,9 @@ enum Fin {
 enum InnerSpec {
   Cold(Vec<Val>, Fin),
   Hot(usize),
+  /// `(kickhot j h)`: when it is subscribed it FIRST pushes inner observable j into the outer stream (from inside its own
+  /// subscription: the operator is in the middle of starting it), then it is hot subject h (no model: oracle only)
+  KickHot(usize, usize),
 }
 
 fn parse_inner(e: &SExp) -> InnerSpec {
@@ -100,6 +115,7 @@ fn parse_inner(e: &SExp) -> InnerSpec {
       InnerSpec::Cold(items, fin)
     }
     "hot" => InnerSpec::Hot(xs[1].nat()),
+    "kickhot" => InnerSpec::KickHot(xs[1].nat(), xs[2].nat()),
     h => panic!("unknown inner {}", h),
   }
 }
@@ -150,8 +166,24 @@ macro_rules! impl_flatten {
   ($run:ident, $build_inner:ident, $ctx:ty, $bx:ty, $subject:ident, $subscriber:ident,
    $box_observer:ident, $box_sub:ty, $probe:ident, $log_ty:ty, $new_log:expr, $drain:expr,
    $merge_all:ident, $concat_all:ident, $flatten:ident, $flat_map:ident, $concat_map:ident) => {
-    fn $build_inner(spec: &InnerSpec, ctx: &$ctx) -> $bx {
+    fn $build_inner(
+      spec: &InnerSpec,
+      ctx: &$ctx,
+      outer: &Rc<dyn Fn($bx)>,
+      table: &Arc<Mutex<Vec<Option<Kept<$bx>>>>>,
+    ) -> $bx {
       match spec {
+        InnerSpec::KickHot(j, h) => {
+          let (outer, table, j, hot) = (Kept(outer.clone()), table.clone(), *j, Kept(ctx.subject(*h)));
+          observable::defer(move || {
+            let inner = table.lock().unwrap()[j].as_ref().map(|k| k.get());
+            if let Some(inner) = inner {
+              (outer.get())(inner);
+            }
+            hot.get()
+          })
+          .box_it()
+        }
         InnerSpec::Cold(items, Fin::Complete) => {
           observable::from_iter(items.clone()).on_error_map(widen).box_it()
         }
@@ -180,10 +212,19 @@ macro_rules! impl_flatten {
       let log: $log_ty = $new_log;
       let via = via_of(case);
       let limit = parse_limit(case, &via);
-      let inners: Vec<$bx> =
-        case.field("inners").iter().map(|e| $build_inner(&parse_inner(e), &ctx)).collect();
       // the outer stream: a Subject of inner observables, or (flat_map / concat_map) of items
       let mut outer_obs: $subject<$bx, i64> = <$subject<$bx, i64>>::default();
+      let table: Arc<Mutex<Vec<Option<Kept<$bx>>>>> = Arc::new(Mutex::new(vec![]));
+      let kick: Rc<dyn Fn($bx)> = {
+        let o = outer_obs.clone();
+        Rc::new(move |x| o.clone().next(x))
+      };
+      let inners: Vec<$bx> = case
+        .field("inners")
+        .iter()
+        .map(|e| $build_inner(&parse_inner(e), &ctx, &kick, &table))
+        .collect();
+      *table.lock().unwrap() = inners.iter().map(|i| Some(Kept(i.clone()))).collect();
       let mut outer_val: $subject<Val, i64> = <$subject<Val, i64>>::default();
       let by_val = via != "mergeall";
       let sub: $box_sub = match (via.as_str(), &limit) {
